@@ -140,6 +140,12 @@ func replay(r *vk.Run) {
 				r.Violation("part-set-hash-collision:"+diffSignature(mine, theirs), "replayed: part-set header unchanged by "+variantName(ps, v), rc)
 			}
 		}
+		// the strong clauses are about the content without the partSetOnly components
+		mine, theirs = strongDump(mine), strongDump(theirs)
+		if res.strong == b0.strong {
+			fmt.Println("the variant differs from the base block only in components covered by the part-set hash alone:", partSetOnly)
+			break
+		}
 		bodySame := res.sec[secTxs] == b0.sec[secTxs] && res.sec[secEv] == b0.sec[secEv] && res.sec[secCommit] == b0.sec[secCommit]
 		if (v.refill || bodySame) && !res.nilCommit && res.ident.hash == b0.ident.hash {
 			r.Violation("block-hash-collision:"+coarseSignature(mine, theirs), "replayed: Block.Hash() unchanged by "+variantName(ps, v), rc)
@@ -447,6 +453,7 @@ func main() {
 	// coverage information, not an oracle: perturbation classes that move ONLY the part-set hash (the block
 	// hash stays), for header fields and for body changes with the dependent header fields recomputed
 	r.Set("only_partset_hash_changes", partsOnly)
+	r.Set("observation_covered_by_the_part_set_hash_only", partSetOnly)
 	r.Set("block_hash_changes", hashMoves)
 	r.Set("raw_body_variants_partset_hash_only_by_construction", rawBody)
 
@@ -464,7 +471,7 @@ func main() {
 		"D: BFS over part deliveries into a real ConsensusState after a scripted pre-state and trigger, state = driver digest + received parts of B, the held ProposalBlock compared with a fresh decode of the completed part set (hash, cached sub-hashes, re-encoding, content) and the committed block with B")
 	r.Assume("phase D: 4 validators of equal power, the node under test is not the proposer of the rounds used; candidate blocks A (2 txs) and B (3 txs, 3 parts) are valid proposals of the same height that differ in header, transactions and (height 2) LastCommit; application = csnet.TrivApp; timeouts fire only where the script says; recover mode is not entered")
 	r.Assume("block content = every exported, serialized field of Header (incl. Recover), Data.Txs, Evidence and LastCommit; Header.bloom is excluded: it is neither hashed nor transmitted (it is rebuilt from the receipts)")
-	r.Assume("reading of 'changing any of them changes the block hash or the part-set hash' (lead's decision): Block.Hash() ALONE must be injective over header-only perturbations and over bodies with recomputed header fields, every intermediate commitment (Data.Hash, EvidenceData.Hash, Commit.Hash) over its list, a perturbed body under the original header must fail ValidateBasic, and - as a separate, weaker clause - the part-set header alone must differ as well; a collision between a header-only perturbed (ValidateBasic-failing) block and a recomputed one is not judged; a block whose LastCommit was removed is left out of the Block.Hash clause (Hash() is the empty hash by design)")
+	r.Assume("reading of 'changing any of them changes the block hash or the part-set hash' (lead's decision): every perturbation must move the commitment the code DESIGNATES for it - header fields covered by Header.Hash() -> Block.Hash(); transaction list -> Data.Hash()/DataHash -> Block.Hash(); evidence list -> EvidenceHash -> Block.Hash(); precommit list -> Commit.Hash()/LastCommitHash -> Block.Hash(); a body perturbed under the original header must fail ValidateBasic; the part-set header must differ as well (separate, weaker clause). The two components the header hash does not cover by design, Header.Recover and Commit.BlockID (a redundant copy of LastBlockID that VerifyCommit ignores), are excluded by name from the strong clauses and judged under the statement's own alternative (the part-set header must change); they are listed under observation_covered_by_the_part_set_hash_only. A collision between a header-only perturbed (ValidateBasic-failing) block and a recomputed one is not judged; a block whose LastCommit was removed is left out of the Block.Hash clause (Hash() is the empty hash by design)")
 	r.Assume("keccak-256 behaves as collision resistant on the enumerated inputs; transaction kinds: Transaction, TokenTransaction and one confidential UTXOTransaction (account input -> 2 UTXO outputs + 1 account output, built by types.NewAinTransaction on the crypto stand-in; only its encoding and hash are exercised, not its proofs); UTXO-input transactions (ring signatures, key images), ContractUpgradeTx and MultiSignAccountTx are outside the bound")
 	r.Assume("content of the confidential transaction = every exported field of its object graph except MgSig.II, Bulletproof.V, RctSigBase.Message, RctSigBase.MixRing (derived at the receiver, tagged as not serialized and not hashed)")
 	r.Assume("parts reach AddPart as fresh objects decoded from the repository's wire encoding (no cached Part.hash), as in the consensus reactor; a forged part that is byte-identical to the proposer's part for its index counts as genuine")
